@@ -2,8 +2,22 @@ Require Extraction.
 Require Import ExtrOcamlBasic.
 From Coq Require Import ZArith List.
 Require Import Cspuz.Puzzle.PuzzleBase.
+Require Import Cspuz.Puzzle.Rules_akari.
 Require Import Cspuz.Puzzle.Rules_aquarium.
+Require Import Cspuz.Puzzle.Rules_creek.
+Require Import Cspuz.Puzzle.Rules_fillomino.
+Require Import Cspuz.Puzzle.Rules_geradeweg.
+Require Import Cspuz.Puzzle.Rules_gokigen.
+Require Import Cspuz.Puzzle.Rules_heyawake.
+Require Import Cspuz.Puzzle.Rules_masyu.
+Require Import Cspuz.Puzzle.Rules_norinori.
 Require Import Cspuz.Puzzle.Rules_nurikabe.
+Require Import Cspuz.Puzzle.Rules_nurimisaki.
+Require Import Cspuz.Puzzle.Rules_putteria.
+Require Import Cspuz.Puzzle.Rules_simpleloop.
 Require Import Cspuz.Puzzle.Rules_slitherlink.
+Require Import Cspuz.Puzzle.Rules_star_battle.
 Require Import Cspuz.Puzzle.Rules_sudoku.
-Extraction "model.ml" Z.add Nat.add rules_aquarium answers_aquarium rules_nurikabe answers_nurikabe rules_slitherlink answers_slitherlink rules_sudoku answers_sudoku.
+Require Import Cspuz.Puzzle.Rules_yajilin.
+Require Import Cspuz.Puzzle.Rules_yinyang.
+Extraction "model.ml" Z.add Nat.add rules_akari answers_akari rules_aquarium answers_aquarium rules_creek answers_creek rules_fillomino answers_fillomino rules_geradeweg answers_geradeweg rules_gokigen answers_gokigen rules_heyawake answers_heyawake rules_masyu answers_masyu rules_norinori answers_norinori rules_nurikabe answers_nurikabe rules_nurimisaki answers_nurimisaki rules_putteria answers_putteria rules_simpleloop answers_simpleloop rules_slitherlink answers_slitherlink rules_star_battle answers_star_battle rules_sudoku answers_sudoku rules_yajilin answers_yajilin rules_yinyang answers_yinyang.
